@@ -9,6 +9,9 @@
 //!   large <seed> <count> <maxlen>
 //!   one <fn> <n> <d> <s|c>                replay of one copy/set call on the small arena
 //!   onecmp <fn> <n> <am> <bm> <p> <pair>  replay of one compare call
+//!   steps \n <fn> <n> <d> <s|c> \n ...    copy/set calls on the small arena, each bracketed by the marker
+//!                                         system calls write(-1,"B") / write(-1,"E") so that tools/stepstores can
+//!                                         single-step exactly the call and log every store into the arena
 #![no_std]
 #![no_main]
 
@@ -187,7 +190,9 @@ unsafe fn do_copy(name: &str, f: CopyFn, base: *mut u8, l: usize, n: usize, d: u
     kv(false, "d", d as i64);
     kv(false, "s", s as i64);
     flush();
+    mark(b"B", base);
     let r = f(base.add(d), base.add(s), n);
+    mark(b"E", base);
     kv(false, "ret", r as i64 - base as i64);
     put_runs(base, l, s as i64 - d as i64, true);
     puts("}\n");
@@ -215,7 +220,9 @@ unsafe fn do_set(f: SetFn, base: *mut u8, l: usize, n: usize, d: usize, c: i32) 
     kv(false, "d", d as i64);
     kv(false, "c", i64::from(c));
     flush();
+    mark(b"B", base);
     let r = f(base.add(d), c, n);
+    mark(b"E", base);
     kv(false, "ret", r as i64 - base as i64);
     put_runs(base, l, 0, false);
     puts("}\n");
@@ -282,18 +289,31 @@ unsafe fn do_cmp(name: &str, f: CmpFn, base: *mut u8, n: usize, am: usize, bm: u
 // ---------------------------------------------------------------------------------------------
 // command parsing (stdin)
 // ---------------------------------------------------------------------------------------------
-static mut CMD: [u8; 4096] = [0; 4096];
+static mut CMD: [u8; 1 << 16] = [0; 1 << 16];
+static mut STEP_MARK: bool = false;
+
+/// marker for the single-step tracer: write(-1, tag, 1) fails with EBADF and changes nothing
+#[inline(never)]
+fn mark(tag: &'static [u8; 1], base: *const u8) {
+    unsafe {
+        if core::ptr::addr_of!(STEP_MARK).read_volatile() {
+            // (the count register carries the arena address for the tracer; the call fails before looking at it)
+            core::arch::asm!("syscall", inlateout("rax") 1usize => _, in("rdi") -1isize, in("rsi") tag.as_ptr(), in("rdx") base as usize,
+                             lateout("rcx") _, lateout("r11") _, options(nostack));
+        }
+    }
+}
 
 fn read_cmd() -> &'static [u8] {
     unsafe {
-        let buf = core::slice::from_raw_parts_mut(core::ptr::addr_of_mut!(CMD).cast::<u8>(), 4096);
+        let buf = core::slice::from_raw_parts_mut(core::ptr::addr_of_mut!(CMD).cast::<u8>(), 1 << 16);
         let mut len = 0;
         loop {
             match rusl::unistd::read(Fd::try_new(0).unwrap(), &mut buf[len..]) {
                 Ok(0) | Err(_) => break,
                 Ok(k) => len += k,
             }
-            if len == 4096 {
+            if len == (1 << 16) {
                 break;
             }
         }
@@ -354,7 +374,8 @@ pub fn main() -> i32 {
     let set: SetFn = black_box(memset as SetFn);
     let cmpf: CmpFn = black_box(memcmp as CmpFn);
     let bcmpf: CmpFn = black_box(bcmp as CmpFn);
-    let mode = word(cmd, 0);
+    let first_line = cmd.split(|c| *c == b'\n').next().unwrap_or(&[]);
+    let mode = word(first_line, 0);
     unsafe {
         let sb = core::ptr::addr_of_mut!(SMALL).cast::<u8>();
         fill_tags(sb, 256);
@@ -455,6 +476,31 @@ pub fn main() -> i32 {
                     do_set(set, sb, SMALL_L, n, d, x as i32);
                 }
             }
+        } else if mode == b"steps" {
+            putb(b'{');
+            puts("\"f\":\"base\"");
+            kv(false, "addr_hi", (sb as usize >> 24) as i64);
+            kv(false, "addr_lo", (sb as usize & 0xff_ffff) as i64);
+            puts("}\n");
+            flush();
+            core::ptr::addr_of_mut!(STEP_MARK).write_volatile(true);
+            for line in cmd.split(|c| *c == b'\n').skip(1) {
+                let f = word(line, 0);
+                let n = num(word(line, 1)) as usize;
+                let d = num(word(line, 2)) as usize;
+                let x = num(word(line, 3));
+                if line.is_empty() || n > 40 || d + n > SMALL_L {
+                    continue;
+                }
+                if f == b"memcpy" && (x as usize) + n <= SMALL_L {
+                    do_copy("memcpy", cpy, sb, SMALL_L, n, d, x as usize);
+                } else if f == b"memmove" && (x as usize) + n <= SMALL_L {
+                    do_copy("memmove", mov, sb, SMALL_L, n, d, x as usize);
+                } else if f == b"memset" {
+                    do_set(set, sb, SMALL_L, n, d, x as i32);
+                }
+            }
+            core::ptr::addr_of_mut!(STEP_MARK).write_volatile(false);
         } else if mode == b"onecmp" {
             let f = word(cmd, 1);
             let n = num(word(cmd, 2)) as usize;
